@@ -144,14 +144,22 @@ def final? : Sexp → Option (Option Status × String × Nat × Nat × Nat × Na
     some (status? st, toString esc, (← c.nat?), (← b.nat?), (← lb.nat?), (← n.nat?))
   | _ => none
 
-/-- `hdr` = `(typed b) (ctxs ...) (vars n) (blocks nb)` -/
+/-- an optional header field `(name 0|1)` after `(blocks nb)`; absent = false -/
+def flagOpt (name : String) (opts : List Sexp) : Bool :=
+  opts.any fun x => match x with
+    | .list [.atom n, b] => n == name && b.nat? == some 1
+    | _ => false
+
+/-- `hdr` = `(typed b) (ctxs ...) (vars n) (blocks nb)` and optionally `(gxs b)` (the body ignores GeneratorExit at its
+    suspension points) and `(afterfix b)` (tools/ctxwith_afterfix.py: the library under test carries
+    proposed-fixes/C08-close-raise.diff, the expectation is the model with `closeSwallows := true`) -/
 def handleW (id : Nat) (hdr : List Sexp) (body : List Sexp) : String :=
   match hdr, (body.dropLast).mapM obs?, body.getLast?.bind final? with
-  | [t, c, v, .list [.atom "blocks", nbS]], some impl, some (fst, fesc, fclean, fb, flb, fnext) =>
+  | t :: c :: v :: .list [.atom "blocks", nbS] :: opts, some impl, some (fst, fesc, fclean, fb, flb, fnext) =>
     match hdr? [t, c, v], nbS.nat? with
     | some h, some nb =>
       let ops := impl.map (·.op)
-      let w0 := initW h.defs h.nvars nb
+      let w0 : StW := { initW h.defs h.nvars nb with swallowsGX := flagOpt "gxs" opts, closeSwallows := flagOpt "afterfix" opts }
       let model := runW (codeCfg h.typed) h.defs w0 ops
       let wf := finalStateW (codeCfg h.typed) h.defs w0 ops
       let corr := firstDiff model impl
@@ -161,7 +169,8 @@ def handleW (id : Nat) (hdr : List Sexp) (body : List Sexp) : String :=
         | some e => excTok e
         | none => (match wf.s.status with | .err _ => "task-error" | _ => "none")
       let expB := if wf.stale then 1 else 0
-      let finCorr := fst == some wf.s.status && fesc == expEsc && fclean == (if wf.dirty then 0 else 1) && fnext == 1 &&
+      let finCorr := fst == some wf.s.status && (fesc == expEsc || (expEsc == "other" && fesc.startsWith "other")) &&
+        fclean == (if wf.dirty then 0 else 1) && fnext == 1 &&
         fb == expB && flb == expB
       -- the property on the implementation's observations alone
       let spec0 := specClauseW impl
